@@ -277,11 +277,11 @@ def nodes(e) -> int:
 def lrec_grammar(rng: random.Random):
     """Layered expression grammars with direct, aliased, mutual, optional-prefixed and named left recursion,
     mixed with right recursion and unary prefixes. Returns (grammar, kind)."""
-    kind = rng.choice(['direct', 'direct2', 'aliased', 'mutual', 'optprefix', 'named', 'rightmix', 'unary', 'layered', 'prefix2', 'prefix2'])
+    kind = rng.choice(['direct', 'direct2', 'aliased', 'mutual', 'optprefix', 'named', 'rightmix', 'unary', 'layered', 'prefix2', 'prefix2', 'postfix', 'optcall'])
     num = ('pat', r'\d+')
     ident = ('pat', r'[a-z]+')
     paren = [('tok', '('), 'cut', ('call', 'expr'), ('tok', ')')] if rng.random() < 0.4 else [('tok', '('), ('call', 'expr'), ('tok', ')')]
-    atom = ('choice', [num, ident, ('seq', paren)]) if (rng.random() < 0.5 or kind == 'prefix2') else num
+    atom = ('choice', [num, ident, ('seq', paren)]) if ((rng.random() < 0.5 or kind == 'prefix2') and kind not in ('postfix', 'optcall')) else num
     op1 = rng.choice(['+', '-'])
     op2 = rng.choice(['*', '/'])
     rules = []
@@ -293,6 +293,18 @@ def lrec_grammar(rng: random.Random):
                                           ('seq', [('call', 'expr'), ('tok', '-' if op1 == '+' else '+'), ('call', 'term')]),
                                           ('call', 'term')])),
                  ('term', [], atom)]
+    elif kind == 'postfix':
+        # a helper rule on the cycle whose name sorts before / after the leader
+        helper = rng.choice(['call', 'apply', 'zcall', 'postfix'])
+        rules = [('expr', [], ('choice', [('seq', [('call', 'expr'), ('tok', op1), ('call', 'term')]), ('call', helper), ('call', 'term')])),
+                 (helper, [], ('seq', [('call', 'expr'), ('tok', '('), ('tok', ')')])),
+                 ('term', [], num)]
+    elif kind == 'optcall':
+        # the cycle goes through a rule that begins with an optional rule call
+        rules = [('expr', [], ('seq', [('opt', ('call', 'sign')), ('call', 'sum')])),
+                 ('sum', [], ('choice', [('seq', [('call', 'expr'), ('tok', op1), ('call', 'term')]), ('call', 'term')])),
+                 ('sign', [], ('choice', [('tok', '~'), ('tok', '!')])),
+                 ('term', [], num)]
     elif kind == 'prefix2':
         # two alternatives with a common left-recursive prefix: the longer one fails late (after a nested expr)
         rules = [('expr', [], ('choice', [('seq', [('call', 'expr'), ('tok', op1), ('call', 'term'), ('tok', '!')]),
@@ -331,18 +343,31 @@ def lrec_grammar(rng: random.Random):
     return {'rules': rules, 'directives': {}, 'keywords': []}, kind
 
 
-def lrec_inputs(rng: random.Random, n: int, maxlen=7):
+def lrec_inputs(rng: random.Random, n: int, maxlen=7, g=None):
+    """operator/operand strings; when the grammar is given, operands and operators are biased towards the ones it accepts"""
     toks = ['1', '2', 'x', '+', '-', '*', '/', '^', '(', ')', '!']
+    operands = ['1', '2', 'x', '(1)', '(2)', '(1+2)', '(x-1)', '1()', '2 ( )']
+    ops = ['+', '-', '*', '/', '^']
+    if g is not None:
+        text = repr(g['rules'])
+        gops = [o for o in ops + ['!'] if f"('tok', '{o}')" in text]
+        if "('tok', '(')" not in text:
+            operands = ['1', '2', '12', '1', '2', 'x'] if '[a-z]+' in text else ['1', '2', '12', '7']
+        elif "('tok', '('), ('tok', ')')" in text:
+            operands = ['1', '2', '1()', '2 ( )', '12']
+        else:
+            operands = ['1', '2', 'x', '(1)', '(2)', '(1+2)', '(x-1)'] if '[a-z]+' in text else ['1', '2', '(1)', '(1+2)', '(2-1)']
+        ops = (gops * 3 + ops) if gops else ops
     out = ['']
     while len(out) < n:
         r = rng.random()
         k = rng.randint(1, maxlen)
-        if r < 0.7:
+        if r < 0.75:
             s = []
             for i in range(k):
-                s.append(rng.choice(['1', '2', 'x', '(1)', '(2)', '(1+2)', '(x-1)']) if i % 2 == 0 else rng.choice(['+', '-', '*', '/', '^']))
-            if rng.random() < 0.2:
-                s.insert(0, '-')
+                s.append(rng.choice(operands) if i % 2 == 0 else rng.choice([o for o in ops if o != '!'] or ops))
+            if rng.random() < 0.15:
+                s.insert(0, rng.choice(['-', '~', '!']))
             if rng.random() < 0.25:
                 s.append('!')
             t = rng.choice(['', ' ']).join(s)
